@@ -107,3 +107,15 @@ PROPS["C06"] = dict(
         R("C06.schedules_random", "ke", "TestC06Random", 1500, 60000),
     ],
 )
+
+PROPS["C03"] = dict(
+    level="exploration",
+    technique="model-based property testing (rapid state machine) with a Dolev-Yao forger built from first principles; oracle: usable implies the reported key signed this handshake's transcript",
+    level_text="A rapid state machine delivers genuine, cross-fed and forged/spliced handshake and data messages to an honest session in either role, in any order with duplicates and omissions; after every delivery the readiness / remote-key / transcript-binding oracle is evaluated using the guarded channel-binding hook. Holds on everything generated.",
+    level_note="Symbolic adversary: it splices, replays and forges with its own key but cannot break the primitives. Uses the verif build-tag hooks VerifChannelBinding and VerifHandshakeIndex.",
+    design_ref="4/C03",
+    assumptions=["the adversary cannot forge signatures or break the Noise key exchange", "a lifted signature whose signed data differs from the transcript cannot verify (collision resistance)"],
+    subs=[
+        R("C03.forgery", "ke", "TestC03Forgery", 2500, 120000, steps=30),
+    ],
+)
